@@ -98,6 +98,28 @@ func genRec(cfg Config, emit func(string, bool, []string)) {
 			add("advance 33")
 			add("obs")
 		}
+		if c%25 == 9 && refresh == "" && !gcCase && !truncated {
+			// operations that take longer than the backoff: the wait before a retry counts from the failure
+			ops[len(ops)-1] = strings.Replace(ops[len(ops)-1], " exact", " oracle", 1)
+			add("fail 1 1")
+			add("inject 1 sleep 1 %d", minB*3+r.IntN(200))
+			add("put 1 %d", r.IntN(100))
+			add("advance %d", minB*4+300)
+			add("obs")
+			add("inject 1 sleep 1 %d", minB*5+r.IntN(200))
+			add("advance %d", minB*16+300)
+			add("obs")
+			add("put 2 %d", r.IntN(100))
+			add("inject 2 sleep 2 %d", minB*2+50)
+			add("advance %d", maxB+minB*8)
+			add("obs")
+			add("fail 1 0")
+			add("advance %d", 4*maxB+1000)
+			add("obs")
+			add("final")
+			emit(fmt.Sprintf("rec slow-operations round=%d", roundSize), true, ops)
+			continue
+		}
 		if c%25 == 21 && refresh == "" && !gcCase {
 			// a round filled to its limit by new changes in which the set of failed objects changes
 			// (first failure / the only failed object rewritten and succeeding), followed at once by
@@ -337,6 +359,7 @@ type recCall struct {
 	stale   bool   // the user had already changed / removed / re-created the object when this attempt ran
 	rev     uint64 // the revision argument of the operation (the change being reconciled)
 	round   int    // the reconciler's round the call was made in (rounds are told apart by their snapshot)
+	end     time.Duration // when the operation returned (it may take time: injected sleeps)
 }
 
 type recExec struct {
@@ -484,6 +507,7 @@ func (e *recExec) doUpdate(rev statedb.Revision, obj *recObj) error {
 	ref, live := e.ref[obj.ID]
 	c := recCall{op: "U", id: obj.ID, data: obj.Data, ok: !fail, at: e.since(), pending: st.ID, kind: st.Kind, stale: !live || ref.data != obj.Data, rev: uint64(rev), round: e.round}
 	e.calls = append(e.calls, c)
+	idx := len(e.calls) - 1
 	if !fail {
 		e.target[obj.ID] = recTarget{true, obj.Data}
 	}
@@ -501,6 +525,9 @@ func (e *recExec) doUpdate(rev statedb.Revision, obj *recObj) error {
 	}
 	e.mu.Lock()
 	e.inUpdate = 0
+	if idx < len(e.calls) {
+		e.calls[idx].end = e.since()
+	}
 	e.mu.Unlock()
 	if fail {
 		return errors.New("fail")
@@ -1041,7 +1068,9 @@ func (e *recExec) settleOracle(o *Out) {
 	}
 	e.lwSamples = nil
 	// C16 pacing: consecutive failed attempts of one object with no change or success in between
-	streak := map[string][]time.Duration{}
+	// (waits are measured from the moment the failed operation RETURNED: an operation may take
+	// longer than the backoff)
+	streak := map[string][]recCall{}
 	for _, c := range e.calls {
 		if c.op == "change" {
 			for k := range streak {
@@ -1058,17 +1087,23 @@ func (e *recExec) settleOracle(o *Out) {
 			delete(streak, key)
 			continue
 		}
-		streak[key] = append(streak[key], c.at)
+		streak[key] = append(streak[key], c)
 	}
-	for key, ts := range streak {
+	for key, cs := range streak {
 		var prevGap time.Duration
-		for i := 1; i < len(ts); i++ {
-			gap := ts[i] - ts[i-1]
+		for i := 1; i < len(cs); i++ {
+			from := cs[i-1].at
+			feat := map[string]string(nil)
+			if cs[i-1].end > from {
+				from = cs[i-1].end
+				feat = map[string]string{"measured_from": "return-of-a-slow-operation"}
+			}
+			gap := cs[i].at - from
 			if gap < e.minB {
-				o.Fail("C16", "retry-sooner-than-min-backoff", nil, fmt.Sprintf("%s retried %v after a failure (min backoff %v)", key, gap, e.minB))
+				o.Fail("C16", "retry-sooner-than-min-backoff", feat, fmt.Sprintf("%s retried %v after a failure (min backoff %v)", key, gap, e.minB))
 			}
 			if gap < prevGap {
-				o.Fail("C16", "retry-wait-shrank", nil, fmt.Sprintf("%s: wait %v after a wait of %v without a change or success in between", key, gap, prevGap))
+				o.Fail("C16", "retry-wait-shrank", feat, fmt.Sprintf("%s: wait %v after a wait of %v without a change or success in between", key, gap, prevGap))
 			}
 			prevGap = gap
 		}
@@ -1206,6 +1241,9 @@ func (e *recExec) Do(o *Out, f []string) string {
 				e.del(tid)
 				e.sideGC()
 			}
+		case "sleep":
+			// the operation takes d milliseconds (of virtual time) before it returns
+			fn = func() { time.Sleep(time.Duration(d) * time.Millisecond) }
 		default:
 			fn = func() { e.touch(tid) }
 		}
